@@ -377,8 +377,12 @@ func (ex *Exec) appendAbsCells(s SliceV, add []Value, e ast.Node) Value {
 		cells[i] = a.(*Term)
 	}
 	if s.Obj != nil && s.Obj.Pre {
-		if s.Obj.SpareCap == nil || ex.decide(Le(IntI(int64(len(add))), s.Obj.SpareCap), ex.where(e)) {
-			ex.oblige("frame", s.Obj.Name, BoolC(false), "append writes into the spare capacity of a caller-owned slice").Props = ex.fc.Props
+		room := s.Obj.SpareCap
+		if s.prefixOf != nil && room != nil {
+			room = Add(room, s.prefixOf.Len) // the bytes of the original slice are capacity of its empty prefix
+		}
+		if room == nil || ex.decide(Le(IntI(int64(len(add))), room), ex.where(e)) {
+			ex.oblige("frame", s.Obj.Name, BoolC(false), "append writes into memory of a caller-owned slice").Props = ex.fc.Props
 		}
 	}
 	str := Cat(s.Abs.Str, strOfCells(cells))
@@ -390,8 +394,16 @@ func (ex *Exec) appendAbsCells(s SliceV, add []Value, e ast.Node) Value {
 }
 
 func (ex *Exec) sliceAbs(s SliceV, e *ast.SliceExpr) Value {
-	ex.unsupported("slicing abstract slice at %s", ex.where(e))
-	return nil
+	// only s[:0] / s[0:0] (an empty prefix that keeps the backing store and its capacity) is modelled
+	lo := ex.constInt(e.Low, 0)
+	if e.High == nil || lo != 0 {
+		ex.unsupported("slicing abstract slice at %s", ex.where(e))
+	}
+	hi := ex.evalTerm(e.High)
+	if !hi.IsConst() || hi.val.Sign() != 0 {
+		ex.unsupported("slicing abstract slice at %s", ex.where(e))
+	}
+	return SliceV{Obj: s.Obj, Elem: s.Elem, Abs: &AbsBytes{Str: StrLit(nil), Len: IntI(0), Obj: s.Obj}, prefixOf: s.Abs}
 }
 func (ex *Exec) absToArray(s SliceV, n int, e ast.Node) Value {
 	ex.unsupported("abstract slice to array at %s", ex.where(e))
@@ -517,13 +529,26 @@ func (ex *Exec) callHash(full string, args []Value, e *ast.CallExpr) (Value, boo
 		return TupleV{ex.absLenValue(args[1]), IntI(0)}, true
 	case "(hash.Hash).Sum":
 		st := args[0].(OpaqueV).Data.(*hashState)
-		if in, ok := args[1].(SliceV); !ok || in.Obj != nil || in.Abs != nil {
-			ex.unsupported("hash.Sum is only modelled with a nil argument")
-		}
 		d := HashOf(Cat(st.chunks...))
+		if in, ok := args[1].(SliceV); ok && (in.Obj != nil || in.Abs != nil) {
+			// Sum(b) appends the digest to b
+			if in.Abs == nil {
+				return ex.appendConcrete(in, ex.cellsOfStr(d, 32), in.Elem, e), true
+			}
+			return ex.appendAbsCells(in, ex.cellsOfStr(d, 32), e), true
+		}
 		o := ex.st.newObj("digest", types.NewArray(types.Typ[types.Uint8], 32))
 		o.Cells = ex.cellsOfStr(d, 32)
 		return SliceV{Obj: o, Len: 32, Cap: 32, Elem: types.Typ[types.Uint8]}, true
+	case "io.WriteString":
+		hs, ok := args[0].(OpaqueV)
+		str, ok2 := args[1].(StrV)
+		if !ok || hs.Kind != "hash" || !ok2 {
+			return nil, false
+		}
+		st := hs.Data.(*hashState)
+		st.chunks = append(st.chunks, StrLit([]byte(str.S)))
+		return TupleV{ex.constOf(bi(int64(len(str.S))), machType(types.Typ[types.Int])), IntI(0)}, true
 	case "math.Ceil":
 		r := args[0].(OpaqueV).Data.(*big.Rat)
 		q := new(big.Int).Quo(r.Num(), r.Denom())
